@@ -2775,3 +2775,78 @@ func c15r27(rc *core.RC) {
 		rc.OK(key, fd.Pos(), "the promoted fields come from a list kept in the order of the declarations")
 	}
 }
+
+// ---- C15.R28 the depth written into a field is never computed from the depth another pass left there ----
+
+// StructFieldCode.depth is a scratch value: every struct that is compiled writes into it the embedding depth of the
+// field below that struct, while its name conflicts are resolved, and the next enclosing struct overwrites it. The
+// depth a dropped (ambiguous) field has below the struct that dropped it is kept apart, in the record
+// StructCode.ambiguous holds. A depth computed from the scratch value (`f.depth += depth`, `f.depth = f.depth + 1`)
+// is right for the first enclosing struct and wrong from the second on, where the value is what the level below
+// left behind: an ambiguous pair then counts as deeper than it is and a lone field of the name in another branch is
+// written. Obligation: in package encoder no assignment to StructFieldCode.depth reads StructFieldCode.depth, and
+// none is a compound assignment or an increment.
+func c15r28(rc *core.RC) {
+	p := rc.P
+	pk := p.Pkg("encoder")
+	if pk == nil {
+		return
+	}
+	info := pk.TypesInfo
+	isScratch := func(e ast.Expr) bool {
+		sel, ok := core.Unparen(e).(*ast.SelectorExpr)
+		if !ok || sel.Sel.Name != "depth" {
+			return false
+		}
+		s := info.Selections[sel]
+		if s == nil {
+			return false
+		}
+		return strings.HasSuffix(strings.TrimPrefix(s.Recv().String(), "*"), "encoder.StructFieldCode")
+	}
+	n := 0
+	for _, fd := range p.Funcs("encoder") {
+		if fd.Body == nil {
+			continue
+		}
+		k := 0
+		ast.Inspect(fd.Body, func(m ast.Node) bool {
+			var lhs, rhs ast.Expr
+			tok := token.ASSIGN
+			var at ast.Node
+			switch x := m.(type) {
+			case *ast.AssignStmt:
+				if len(x.Lhs) == 1 && len(x.Rhs) == 1 {
+					lhs, rhs, tok, at = x.Lhs[0], x.Rhs[0], x.Tok, x
+				}
+			case *ast.IncDecStmt:
+				lhs, tok, at = x.X, x.Tok, x
+			}
+			if lhs == nil || !isScratch(lhs) {
+				return true
+			}
+			n++
+			k++
+			rc.Touch(p.FuncName(fd))
+			key := fmt.Sprintf("%s/depth-store#%d not-from-the-scratch-value", p.FuncName(fd), k)
+			reads := false
+			if rhs != nil {
+				ast.Inspect(rhs, func(q ast.Node) bool {
+					if e, isE := q.(ast.Expr); isE && isScratch(e) {
+						reads = true
+					}
+					return true
+				})
+			}
+			if tok != token.ASSIGN || reads {
+				rc.Bad(key, at.Pos(), "the depth of a field is computed from the depth an earlier pass left in it (%s): that value is the field's depth below whichever struct was compiled last, so from the second enclosing struct on an ambiguous pair counts as deeper than it is, and a lone field of the same name in another branch is written where encoding/json writes none", core.Src(p.Fset, at))
+			} else {
+				rc.OK(key, at.Pos(), "assigned from the depth of the walk%s", map[bool]string{true: "", false: ""}[true])
+			}
+			return true
+		})
+	}
+	if n < 4 {
+		rc.Unknown("encoder/StructFieldCode.depth-stores", token.NoPos, "found %d assignments to StructFieldCode.depth, fewer than the 4 confirmed by hand", n)
+	}
+}
